@@ -72,9 +72,9 @@ def slug(s, n=48):
     return s[:n].strip('-')
 
 
-def run_verus(path, rlimit=None, seed=None, timeout=600, cwd=None):
+def run_verus(path, rlimit=None, seed=None, timeout=600, cwd=None, extra=None):
     cmd = ['verus', path, '--output-json', '--time', '--error-format=json', '--triggers-mode', 'silent',
-           '--multiple-errors', '4']
+           '--multiple-errors', '4'] + list(extra or [])
     if rlimit:
         cmd += ['--rlimit', str(rlimit)]
     if seed is not None:
@@ -169,6 +169,7 @@ def run_unit(unit, repo, scratch, tier='quick', seed=0, rlimit=None):
     res['rewrites'] = meta['rewrites']
     res['substs'] = meta['substs']
     res['assumption_scan'] = meta['assumption_scan']
+    res['verus_args'] = meta.get('verus_args', [])
     linemap = meta['linemap']
     with open(gen) as f:
         gen_text = f.read()
@@ -178,8 +179,8 @@ def run_unit(unit, repo, scratch, tier='quick', seed=0, rlimit=None):
     # main run and twin run in parallel
     from concurrent.futures import ThreadPoolExecutor
     with ThreadPoolExecutor(max_workers=2) as ex:
-        fut_main = ex.submit(run_verus, gen, rlimit, seed if tier == 'thorough' else None, 900, scratch)
-        fut_twin = ex.submit(run_verus, twin, rlimit, None, 900, scratch)
+        fut_main = ex.submit(run_verus, gen, rlimit, seed if tier == 'thorough' else None, 900, scratch, meta.get('verus_args'))
+        fut_twin = ex.submit(run_verus, twin, rlimit, None, 900, scratch, meta.get('verus_args'))
         main = fut_main.result()
         tw = fut_twin.result()
     res['cmd'] = main['cmd']
